@@ -18,8 +18,10 @@ import time
 VERIF = os.path.dirname(os.path.dirname(os.path.abspath(__file__)))
 REPO = os.environ.get('VERIF_REPO', '/repo')
 SPEC = os.path.join(VERIF, 'spec')
-EVIDENCE = os.path.join(VERIF, 'evidence')
-REPLAYS = os.path.join(VERIF, 'replays')
+# VERIF_OUT redirects what a run writes (used when the checks are pointed at a seeded tree, so that the committed evidence stays that of /repo)
+OUT = os.environ.get('VERIF_OUT') or VERIF
+EVIDENCE = os.path.join(OUT, 'evidence')
+REPLAYS = os.path.join(OUT, 'replays')
 SEED = int(os.environ.get('VERIF_SEED', '0') or 0)
 NCPU = min(16, os.cpu_count() or 1)
 TLC_JARS = '/opt/veriftools/tla/tla2tools.jar:/opt/veriftools/tla/CommunityModules-deps.jar'
